@@ -16,8 +16,11 @@ from probe import run_probe
 def main(ctx, args):
     rng = random.Random(ctx.seed)
     nlit = sum(5 ** i for i in range(0, (2 if ctx.quick else 3) + 1))     # literals of length <= 2 / 3
-    jobs = [dict(MODE="lit", LO=a, HI=b, LMAX=3 if ctx.quick else 4)
-            for a, b in split_range(0, 16 * nlit, NCPU * (1 if ctx.quick else 4))]
+    if ctx.quick:   # all anchors x literals <= 2 on lines <= 2; anchors x literals <= 1 on lines <= 3
+        jobs = [dict(MODE="lit", LO=a, HI=b, LMAX=2) for a, b in split_range(0, 16 * nlit, NCPU - 4)]
+        jobs += [dict(MODE="lit", LO=a, HI=b, LMAX=3) for a, b in split_range(0, 16 * 6, 4)]
+    else:
+        jobs = [dict(MODE="lit", LO=a, HI=b, LMAX=4) for a, b in split_range(0, 16 * nlit, NCPU * 4)]
     # the classifier on operator-bearing strings: every token sequence of <= 2 (3) tokens
     jobs += [dict(MODE="tok", LO=a, HI=b, LMAX=1) for a, b in split_range(0, count_upto(2 if ctx.quick else 3), NCPU)]
     tables = gen_tables(ctx, jobs)
